@@ -912,6 +912,9 @@ func genC04(c *Ctx) {
 
 	dir := filepath.Join(c.Tmp, "c04")
 	os.MkdirAll(dir, 0o755)
+	// wall-clock time: a file whose content names an instant a few seconds ahead (a self-signature that
+	// expires then) is inspected now and again at the end of the run, after that instant has passed
+	finishWallClock := c04WallClock(c, dir)
 	tzs := []string{"UTC", "Pacific/Kiritimati", "America/Los_Angeles", "Asia/Kathmandu", "Europe/Berlin"}
 	if _, err := time.LoadLocation("Pacific/Kiritimati"); err != nil {
 		tzs = []string{"UTC", "<+14>-14", "<-08>8", "<+0545>-5:45", "CET-1CEST,M3.5.0,M10.5.0/3"}
@@ -1012,7 +1015,90 @@ func genC04(c *Ctx) {
 		l, first, firstLabel := c04Distinct(obsOf[i], labOf[i])
 		c.Emit("repeat:interleaved-"+in.tag, SL{S(in.name), SB(in.data), SB([]byte(first)), S(firstLabel)}, l)
 	}
+	finishWallClock()
 	os.RemoveAll(dir)
+}
+
+// c04WallClock builds OpenPGP keys (Ed25519) whose user ID has two self-signatures, the NEWER one carrying a
+// signature expiration time (RFC 4880 5.2.3.10) that falls `ahead` seconds after now, and keys whose key
+// expiration / subkey binding expires then; each is inspected by the command at once, and again by the returned
+// function, which waits until the instant has passed. The report must be the same: it is a function of name
+// and content, not of when it is made. (The content depends on the time the check runs at; a replay builds
+// a new file for its own "now".)
+func c04WallClock(c *Ctx, dir string) func() {
+	const ahead = 7
+	now := time.Now()
+	t0 := uint32(now.Unix())
+	type wc struct {
+		tag, path string
+		data      []byte
+		first     string
+	}
+	var items []*wc
+	build := func(tag string, sigs func(k *pkey, prefix []byte, id uint64) [][]byte) {
+		r := NewRng(c.R.U64())
+		k := newEdDSAKey(t0-86400*400, r)
+		uid := []byte("Wall Clock <wc@example.org>")
+		prefix := cat(k.hashInput(), []byte{0xb4}, u32(uint32(len(uid))), uid)
+		id := k.keyID()
+		stream := cat(pgpPacket(6, k.body(), 0), pgpPacket(13, uid, 0))
+		for _, sg := range sigs(k, prefix, id) {
+			stream = cat(stream, pgpPacket(2, sg, 0))
+		}
+		it := &wc{tag: tag, path: filepath.Join(dir, "wallclock-"+tag+".asc"), data: pgpArmor(false, stream, nil, 64, true)}
+		os.WriteFile(it.path, it.data, 0o644)
+		items = append(items, it)
+	}
+	sign := func(k *pkey, prefix []byte, o sigOpts) []byte {
+		b, _ := makeSig(k, prefix, o, NewRng(c.R.U64()))
+		return b
+	}
+	// (1) newer self-signature expires in a few seconds, older one does not expire
+	build("newer-selfsig-expires", func(k *pkey, prefix []byte, id uint64) [][]byte {
+		created2 := t0 - 3600
+		exp := u32(3600 + ahead)
+		return [][]byte{
+			sign(k, prefix, sigOpts{sigType: 0x13, hid: 8, created: t0 - 86400*300, issuer: &id, flags: []byte{3}}),
+			sign(k, prefix, sigOpts{sigType: 0x13, hid: 8, created: created2, issuer: &id, flags: []byte{1}, extraHashed: [][]byte{pgpw_subpacket(3, exp, false)}}),
+		}
+	})
+	// (2) the only self-signature expires in a few seconds
+	build("only-selfsig-expires", func(k *pkey, prefix []byte, id uint64) [][]byte {
+		return [][]byte{sign(k, prefix, sigOpts{sigType: 0x13, hid: 8, created: t0 - 3600, issuer: &id, flags: []byte{3}, extraHashed: [][]byte{pgpw_subpacket(3, u32(3600+ahead), false)}})}
+	})
+	// (3) the key itself expires in a few seconds (key expiration time counts from the key's creation)
+	build("key-expires", func(k *pkey, prefix []byte, id uint64) [][]byte {
+		life := uint32(86400*400 + ahead)
+		return [][]byte{sign(k, prefix, sigOpts{sigType: 0x13, hid: 8, created: t0 - 3600, issuer: &id, flags: []byte{3}, keyLife: &life})}
+	})
+	// (4) a signature made "in the future" (creation time a few seconds ahead)
+	build("selfsig-from-the-future", func(k *pkey, prefix []byte, id uint64) [][]byte {
+		return [][]byte{sign(k, prefix, sigOpts{sigType: 0x13, hid: 8, created: t0 + ahead, issuer: &id, flags: []byte{3}})}
+	})
+	run := func(p string) string {
+		cmd := exec.Command(c.Bin, filepath.Base(p))
+		cmd.Dir = filepath.Dir(p)
+		cmd.Env = []string{"TZ=UTC", "PATH=/usr/bin:/bin", "HOME=/nonexistent"}
+		out, err := cmd.Output()
+		if err != nil {
+			out = append(out, []byte("["+err.Error()+"]")...)
+		}
+		return string(out)
+	}
+	for _, it := range items {
+		it.first = run(it.path)
+	}
+	return func() {
+		if d := time.Until(now.Add((ahead + 2) * time.Second)); d > 0 {
+			time.Sleep(d)
+		}
+		for _, it := range items {
+			second := run(it.path)
+			l, first, firstLabel := c04Distinct([]string{it.first, second},
+				[]string{fmt.Sprintf("inspected about %d s before the instant the content names", ahead), "inspected after that instant had passed"})
+			c.Emit("env:wallclock-"+it.tag, SL{S(filepath.Base(it.path)), SB(it.data), SB([]byte(first)), S(firstLabel)}, l)
+		}
+	}
 }
 
 func embedded(rel string) []byte {
